@@ -105,7 +105,8 @@ def rrH : Handler := fun inp impl => do
   let (sR, lR) := runSeq (rrThreadRepaired N picks).steps s0 {}
   let (sC, lC) := runSeq (rrThreadCurrent N picks).steps s0 {}
   let formsAgree := sR.total == sC.total && lR.picks == lC.picks && lR.dead == lC.dead
-  let seq := lR.picks.map (fun i => ring[i]?.getD 0)
+  let ringA := ring.toArray
+  let seq := lR.picks.map (fun i => ringA[i]?.getD 0)
   let model := if lR.dead then panicJson else
     Json.mkObj [("ring", natsJson ring), ("seq", natsJson seq), ("cursor", sR.total)]
   let agree := formsAgree && model == ci
